@@ -152,7 +152,7 @@ def pick_k(rng, n, i):
 
 
 def history(rng, length, krange, pdel):
-    ops, live, used = [], [], set()
+    ops, live = [], []
     nid = 0
     idpool = rng.sample(range(1, 4 * length + 8), length)
     for _ in range(length):
@@ -186,17 +186,17 @@ def plan(ctx):
     tasks = [("corpus", "corpus", {}, 0)]
     for n in range(0, (6 if q else 7) + 1):
         tasks.append(("all-insert-orders", "orders", {"n": n}, ctx.subseed("orders%d" % n)))
-    for i in range(2 if q else 16):
-        tasks.append(("insert-then-remove", "removals", {"count": 600 if q else 2000, "nmax": 10 if q else 12},
+    for i in range(4 if q else 32):
+        tasks.append(("insert-then-remove", "removals", {"count": 1000 if q else 2500, "nmax": 10 if q else 12},
                       ctx.subseed("removals%d" % i)))
     for n in range(1, (7 if q else 10) + 1):
         tasks.append(("all-shapes", "shapes", {"n": n, "both": q or n <= 8}, ctx.subseed("shapes%d" % n)))
     tasks.append(("directed-shapes", "directed", {"quick": q}, ctx.subseed("directed")))
-    for i in range(2 if q else 24):
-        tasks.append(("random-shapes", "randshapes", {"count": 800 if q else 2500, "maxn": 120 if q else 400},
-                      ctx.subseed("randshapes%d" % i)))
     for i in range(4 if q else 48):
-        tasks.append(("random-histories", "histories", {"count": 900 if q else 2500, "maxlen": 400 if q else 1500},
+        tasks.append(("random-shapes", "randshapes", {"count": 1200 if q else 3000, "maxn": 120 if q else 400},
+                      ctx.subseed("randshapes%d" % i)))
+    for i in range(8 if q else 96):
+        tasks.append(("random-histories", "histories", {"count": 1200 if q else 3000, "maxlen": 400 if q else 1500},
                       ctx.subseed("histories%d" % i)))
     if not q:
         for i in range(6):
@@ -675,9 +675,14 @@ def failure_class(what, case):
     return "%s/%s" % (fam, tag)
 
 
-def report_case(ctx, cbin, case, why, cls):
+def report_case(ctx, cbin, case, why, cls, reported):
     small = shrink(cbin, case)
     what = c_fails(cbin, small) or why
+    cls2 = failure_class(what, small)
+    if cls2 != cls and cls2 in reported:
+        return          # the shrunk input shows a failure that has been reported already
+    reported.add(cls2)
+    cls = cls2
     cb, crashes = run_c(cbin, [small], timeout=60)
     ctx.report(key="C03/" + cls, what="%s  [failing input: %s]" % (what, small),
                replay={"case": small, "original_case": case if len(case) < 4000 else case[:4000] + "...",
@@ -823,7 +828,7 @@ def run(ctx):
         if cls in reported:
             continue
         reported.add(cls)
-        report_case(ctx, cbin, case, w, cls)
+        report_case(ctx, cbin, case, w, cls, reported)
 
     if chk is not None:
         out = chk.communicate()[0]
@@ -845,6 +850,8 @@ def run(ctx):
     ctx.cov["tree_kind_and_size"] = dict(sorted(sizes.items()))
     ctx.cov["branch_hits"] = dict(sorted(stats.items()))
     ctx.cov["branches_not_reached"] = missing
+    ctx.cov["branch_rule"] = ("branch_hits: for every node of every compared tree, the branch of each model function "
+                              "(IterDefs.v case split) that a step from that node takes, computed from the dumped shape")
     ctx.cov["disagreements"] = n_diff
     ctx.cov["trusted_base"] += [
         "extraction (ExtrOcamlBasic only) and harness/C03/mdrv.ml (int<->positive/nat, parsing, printing)",
